@@ -113,7 +113,20 @@ class Burster(Manager):
                                      forced=st.get("forced"), check_orders=self.check_orders)
         # the tokens handed out inside the burst belong to executions that were rolled back or replayed: forget them
         self.api.csrf.clear()
+        self.last_burst = reqs
         self.notify("on_burst", st, reqs, outcome)
+
+    async def op_replay(self, st: dict) -> None:
+        """One request of the last burst is sent again, on its own, with the token and cookie it carried then."""
+        reqs = getattr(self, "last_burst", None)
+        if not reqs:
+            return
+        req = reqs[st.get("which", 0) % len(reqs)]
+        before = burstlib.csrf_records(self.sim.world)
+        resp = burstlib.serve(self.sim.world, self.id, req, threaded=False)
+        self.sim.world.record(self.id, req["method"], req["url"], resp.status, resp.body, "replay")
+        after = burstlib.csrf_records(self.sim.world)
+        self.notify("on_replay", st, req, resp, before, after)
 
 
 def token_of(req: dict) -> str | None:
